@@ -70,10 +70,11 @@ variable {κ : Type}
 /-- What the proof needs from the sink: handling corresponding lexemes in `K`-related sink states gives
 equal results and related states (unless the split run hits a panic branch, e.g. a slice out of range);
 and a text lexeme the whole run emits in one piece is equivalent to the two pieces of the split run,
-the first of which (`d` bytes) the split run's sink has already received (`K d`); `Loc ks p`: the sink
-recorded that the piece it received ended at position `p` of the split input. -/
+the first of which (`d` bytes) the split run's sink has already received (`K d`); `Loc ks pc p tt`: the sink
+recorded that the piece it received ended at position `p` of the split input (whose offset is `pc`) and
+had text type `tt`. -/
 structure OpsSim (ops : SinkOps κ) (inpS inpW : Bytes) (δ : Nat) (K : Nat → κ → κ → Prop)
-    (Loc : κ → Nat → Prop) : Prop where
+    (Loc : κ → Nat → Nat → TextType → Prop) : Prop where
   tag : ∀ pc raw o ks kw, K 0 ks kw →
     EPanic (ops.handleTag inpS ⟨pc + δ, raw, o⟩ ks).2 ∨
     ((ops.handleTag inpW ⟨pc, shR δ raw, shTag δ o⟩ kw).2 = (ops.handleTag inpS ⟨pc + δ, raw, o⟩ ks).2 ∧
@@ -82,7 +83,7 @@ structure OpsSim (ops : SinkOps κ) (inpS inpW : Bytes) (δ : Nat) (K : Nat → 
     EPanic (ops.handleNonTag inpS ⟨pc + δ, raw, o⟩ ks).2 ∨
     ((ops.handleNonTag inpW ⟨pc, shR δ raw, o.map (shNonTag δ)⟩ kw).2 = (ops.handleNonTag inpS ⟨pc + δ, raw, o⟩ ks).2 ∧
      K 0 (ops.handleNonTag inpS ⟨pc + δ, raw, o⟩ ks).1 (ops.handleNonTag inpW ⟨pc, shR δ raw, o.map (shNonTag δ)⟩ kw).1)
-  text : ∀ pc a x d tt ks kw, K d ks kw → Loc ks (a + d - δ) → 0 < d → δ ≤ a + d → a + d ≤ x →
+  text : ∀ pc a x d tt ks kw, K d ks kw → Loc ks (pc + δ) (a + d - δ) tt → 0 < d → δ ≤ a + d → a + d ≤ x →
     EPanic (if a + d < x then ops.handleNonTag inpS ⟨pc + δ, ⟨a + d - δ, x - δ⟩, some (.text tt)⟩ ks else (ks, .ok ())).2 ∨
     ((ops.handleNonTag inpW ⟨pc, ⟨a, x⟩, some (.text tt)⟩ kw).2
         = (if a + d < x then ops.handleNonTag inpS ⟨pc + δ, ⟨a + d - δ, x - δ⟩, some (.text tt)⟩ ks else (ks, .ok ())).2 ∧
